@@ -353,4 +353,661 @@ theorem pivots_nodup {dist : α → α → D} {eps : D} (hd : DistOK dist eps) (
 
 end ArgMin
 
+
+/-! ### the distribution loop of `split`, child by child -/
+
+section Distribute
+
+@[simp] theorem Node.pushData_pivot (c : Node α D) (x : Elem α) : (c.pushData x).pivot = c.pivot := by cases c; rfl
+@[simp] theorem Node.pushData_ranges (c : Node α D) (x : Elem α) : (c.pushData x).ranges = c.ranges := by cases c; rfl
+@[simp] theorem Node.pushData_rad (c : Node α D) (x : Elem α) : (c.pushData x).rad = c.rad := by cases c; rfl
+@[simp] theorem Node.pushData_data (c : Node α D) (x : Elem α) : (c.pushData x).data = c.data ++ [x] := by cases c; rfl
+@[simp] theorem Node.pushData_children (c : Node α D) (x : Elem α) : (c.pushData x).children = c.children := by cases c; rfl
+@[simp] theorem Node.pushData_degree (c : Node α D) (x : Elem α) : (c.pushData x).degree = c.degree := by cases c; rfl
+@[simp] theorem Node.setRanges_degree (c : Node α D) (r : List (Range D)) : (c.setRanges r).degree = c.degree := by cases c; rfl
+@[simp] theorem Node.setRad_degree (c : Node α D) (r : Range D) : (c.setRad r).degree = c.degree := by cases c; rfl
+
+variable [LinearOrder D] [OfNat D 0]
+
+theorem updAt_length (rs : List (Range D)) (i : Nat) (d : D) : (updAt rs i d).length = rs.length := by
+  induction rs generalizing i with
+  | nil => rfl
+  | cons r rs ih => cases i <;> simp [updAt, ih]
+
+/-- what `distribute1` does to child `i` when `x = data_[j]` goes to child `k`. -/
+def stepChild (dist : α → α → D) (pivots : List Nat) (k j : Nat) (x : Elem α) (i : Nat) (c : Node α D) : Node α D :=
+  if i = k ∧ pivots[k]? ≠ some j then
+    ((c.setRanges (updAt c.ranges k (dist x.val c.pivot.val))).setRad
+      (c.rad.update (dist x.val c.pivot.val))).pushData x
+  else c.setRanges (updAt c.ranges k (dist x.val c.pivot.val))
+
+theorem distribute1_eq (dist : α → α → D) (pivots : List Nat) (ch : List (Node α D)) (j : Nat) (x : Elem α) :
+    distribute1 dist pivots ch j x =
+      ch.mapIdx (fun i c => stepChild dist pivots (argminFirst (ch.map (fun c => dist x.val c.pivot.val))) j x i c) := by
+  unfold distribute1 stepChild
+  simp only [Node.setRanges_rad]
+
+@[simp] theorem stepChild_pivot (dist : α → α → D) (pivots : List Nat) (k j : Nat) (x : Elem α) (i : Nat) (c : Node α D) :
+    (stepChild dist pivots k j x i c).pivot = c.pivot := by
+  unfold stepChild; split <;> simp
+
+/-- the whole loop, seen from child `i`. -/
+def childFold (dist : α → α → D) (pivots : List Nat) (ps : List (Elem α)) (i : Nat) :
+    Node α D → List (Elem α) → Nat → Node α D
+  | c, [], _ => c
+  | c, x :: xs, j => childFold dist pivots ps i (stepChild dist pivots (Asg dist ps x) j x i c) xs (j + 1)
+
+theorem distribute_spec (dist : α → α → D) (pivots : List Nat) (ps : List (Elem α)) :
+    ∀ (data : List (Elem α)) (J : Nat) (ch : List (Node α D)), ch.map (fun c => c.pivot) = ps →
+      (distribute dist pivots data J ch).length = ch.length ∧
+      ∀ (i : Nat) (c : Node α D), ch[i]? = some c →
+        (distribute dist pivots data J ch)[i]? = some (childFold dist pivots ps i c data J)
+  | [], J, ch, _ => by simp [distribute, childFold]
+  | x :: xs, J, ch, hps => by
+    unfold distribute
+    rw [distribute1_eq]
+    have hA : argminFirst (ch.map (fun c => dist x.val c.pivot.val)) = Asg dist ps x := by
+      unfold Asg
+      rw [← hps, List.map_map]
+      rfl
+    rw [hA]
+    have hps' : (ch.mapIdx (fun i c => stepChild dist pivots (Asg dist ps x) J x i c)).map (fun c => c.pivot) = ps := by
+      rw [← hps]
+      apply List.ext_getElem?
+      intro n
+      simp only [List.getElem?_map, List.getElem?_mapIdx]
+      cases ch[n]? <;> simp
+    obtain ⟨ih1, ih2⟩ := distribute_spec dist pivots ps xs (J + 1) _ hps'
+    refine ⟨by rw [ih1]; simp, ?_⟩
+    intro i c hc
+    rw [ih2 i (stepChild dist pivots (Asg dist ps x) J x i c) (by simp [List.getElem?_mapIdx, hc])]
+    rfl
+
+theorem childFold_spec (dist : α → α → D) (pivots : List Nat) (ps : List (Elem α)) (i : Nat) :
+    ∀ (data : List (Elem α)) (J : Nat) (c : Node α D),
+      (childFold dist pivots ps i c data J).pivot = c.pivot ∧
+      (childFold dist pivots ps i c data J).children = c.children ∧
+      (childFold dist pivots ps i c data J).degree = c.degree ∧
+      (childFold dist pivots ps i c data J).ranges.length = c.ranges.length ∧
+      (∀ y ∈ (childFold dist pivots ps i c data J).data,
+        y ∈ c.data ∨ ∃ m : Nat, data[m]? = some y ∧ Asg dist ps y = i) ∧
+      ((∀ y ∈ c.data, c.rad.has (dist y.val c.pivot.val) = true) →
+        ∀ y ∈ (childFold dist pivots ps i c data J).data,
+          (childFold dist pivots ps i c data J).rad.has (dist y.val c.pivot.val) = true) ∧
+      (∀ (k : Nat) (rg0 : Range D), c.ranges[k]? = some rg0 →
+        ∃ rg, (childFold dist pivots ps i c data J).ranges[k]? = some rg ∧
+          (∀ d, rg0.has d = true → rg.has d = true) ∧
+          ∀ (m : Nat) (y : Elem α), data[m]? = some y → Asg dist ps y = k →
+            rg.has (dist y.val c.pivot.val) = true)
+  | [], J, c => by
+    unfold childFold
+    refine ⟨rfl, rfl, rfl, rfl, fun y hy => Or.inl hy, fun h => h, ?_⟩
+    intro k rg0 h
+    exact ⟨rg0, h, fun d hd => hd, by simp⟩
+  | x :: xs, J, c => by
+    unfold childFold
+    generalize hc1 : stepChild dist pivots (Asg dist ps x) J x i c = c1
+    obtain ⟨i1, i2, i3, i4, i5, i6, i7⟩ := childFold_spec dist pivots ps i xs (J + 1) c1
+    have hp1 : c1.pivot = c.pivot := by rw [← hc1]; simp
+    have hdata1 : ∀ y ∈ c1.data, y ∈ c.data ∨ (y = x ∧ Asg dist ps x = i) := by
+      intro y hy
+      rw [← hc1] at hy
+      unfold stepChild at hy
+      split at hy
+      · rename_i hcond
+        simp only [Node.pushData_data, Node.setRad_data, Node.setRanges_data, List.mem_append,
+          List.mem_singleton] at hy
+        rcases hy with h | h
+        · exact Or.inl h
+        · exact Or.inr ⟨h, hcond.1.symm⟩
+      · simp only [Node.setRanges_data] at hy
+        exact Or.inl hy
+    have hrange1 : c1.ranges = updAt c.ranges (Asg dist ps x) (dist x.val c.pivot.val) := by
+      rw [← hc1]; unfold stepChild; split <;> simp
+    refine ⟨by rw [i1, hp1], ?_, ?_, ?_, ?_, ?_, ?_⟩
+    · rw [i2, ← hc1]; unfold stepChild; split <;> simp
+    · rw [i3, ← hc1]; unfold stepChild; split <;> simp
+    · rw [i4, hrange1, updAt_length]
+    · intro y hy
+      rcases i5 y hy with h | ⟨m, hm, ha⟩
+      · rcases hdata1 y h with h | ⟨h1, h2⟩
+        · exact Or.inl h
+        · exact Or.inr ⟨0, by simp [h1], by rw [h1]; exact h2⟩
+      · exact Or.inr ⟨m + 1, by simpa using hm, ha⟩
+    · intro hrad y hy
+      rw [← hp1]
+      apply i6 _ y hy
+      intro z hz
+      rw [hp1]
+      rw [← hc1] at hz ⊢
+      unfold stepChild at hz ⊢
+      split at hz
+      · rename_i hcond
+        rw [if_pos hcond]
+        simp only [Node.pushData_data, Node.setRad_data, Node.setRanges_data, List.mem_append,
+          List.mem_singleton] at hz
+        simp only [Node.pushData_rad, Node.setRad_rad]
+        rcases hz with h | h
+        · exact Range.has_update_of_has _ _ _ (hrad z h)
+        · rw [h]; exact Range.has_update_self _ _
+      · rename_i hcond
+        rw [if_neg hcond]
+        simp only [Node.setRanges_data] at hz
+        simp only [Node.setRanges_rad]
+        exact hrad z hz
+    · intro k rg0 hk
+      have hk1 : c1.ranges[k]? = some (if k = Asg dist ps x then rg0.update (dist x.val c.pivot.val) else rg0) := by
+        rw [hrange1, updAt_getElem?, hk]
+        split <;> simp
+      obtain ⟨rg, hrg, hmono, hcov⟩ := i7 k _ hk1
+      refine ⟨rg, hrg, ?_, ?_⟩
+      · intro d hd
+        apply hmono
+        split
+        · exact Range.has_update_of_has _ _ _ hd
+        · exact hd
+      · intro m y hm ha
+        cases m with
+        | zero =>
+          simp only [List.getElem?_cons_zero, Option.some.injEq] at hm
+          subst hm
+          apply hmono
+          rw [if_pos ha.symm]
+          exact Range.has_update_self _ _
+        | succ m =>
+          simp only [List.getElem?_cons_succ] at hm
+          rw [← hp1]
+          exact hcov m y hm ha
+
+end Distribute
+
+
+/-! ### `split` stores every copy exactly once -/
+
+section SplitPerm
+
+theorem push_perm {β : Type} (x : β) : ∀ (L : List (List β)) (a : Nat), a < L.length →
+    (L.mapIdx (fun i l => if i = a then l ++ [x] else l)).flatten.Perm (L.flatten ++ [x])
+  | [], a, h => by simp at h
+  | l :: L, 0, _ => by
+    rw [List.mapIdx_cons]
+    have : List.mapIdx (fun i l => if i + 1 = 0 then l ++ [x] else l) L = L := by
+      apply List.ext_getElem?
+      intro n
+      simp only [List.getElem?_mapIdx]
+      cases L[n]? <;> simp
+    rw [this]
+    simp only [if_true, List.flatten_cons, List.append_assoc]
+    exact List.Perm.append_left l List.perm_append_comm
+  | l :: L, a + 1, h => by
+    rw [List.mapIdx_cons]
+    simp only [Nat.add_right_cancel_iff, List.flatten_cons, List.append_assoc]
+    rw [if_neg (by omega)]
+    exact List.Perm.append_left l (push_perm x L a (by simpa using h))
+
+variable [LinearOrder D] [OfNat D 0]
+
+/-- all `data_` of a list of nodes. -/
+def dataL (ch : List (Node α D)) : List (Elem α) := (ch.map (fun c => c.data)).flatten
+
+/-- the elements the loop pushes into some child (`j != pivots[k]`). -/
+def nonSelf (dist : α → α → D) (ps : List (Elem α)) (pivots : List Nat) : List (Elem α) → Nat → List (Elem α)
+  | [], _ => []
+  | x :: xs, j =>
+    (if pivots[Asg dist ps x]? ≠ some j then [x] else []) ++ nonSelf dist ps pivots xs (j + 1)
+
+/-- the elements it does not push: the pivots themselves. -/
+def selfL (dist : α → α → D) (ps : List (Elem α)) (pivots : List Nat) : List (Elem α) → Nat → List (Elem α)
+  | [], _ => []
+  | x :: xs, j =>
+    (if pivots[Asg dist ps x]? = some j then [x] else []) ++ selfL dist ps pivots xs (j + 1)
+
+theorem self_nonSelf_perm (dist : α → α → D) (ps : List (Elem α)) (pivots : List Nat) :
+    ∀ (data : List (Elem α)) (J : Nat),
+      data.Perm (selfL dist ps pivots data J ++ nonSelf dist ps pivots data J)
+  | [], _ => by simp [selfL, nonSelf]
+  | x :: xs, J => by
+    have ih := self_nonSelf_perm dist ps pivots xs (J + 1)
+    unfold selfL nonSelf
+    by_cases h : pivots[Asg dist ps x]? = some J
+    · simp only [h, if_true, ne_eq, not_true_eq_false, if_false, List.nil_append, List.cons_append]
+      exact List.Perm.cons x ih
+    · simp only [h, if_false, ne_eq, not_false_eq_true, if_true, List.nil_append, List.cons_append]
+      exact (List.Perm.cons x ih).trans List.perm_middle.symm
+
+theorem dataL_step (dist : α → α → D) (pivots : List Nat) (a j : Nat) (x : Elem α) (ch : List (Node α D))
+    (ha : a < ch.length) :
+    (dataL (ch.mapIdx (fun i c => stepChild dist pivots a j x i c))).Perm
+      (dataL ch ++ (if pivots[a]? ≠ some j then [x] else [])) := by
+  unfold dataL
+  by_cases hc : pivots[a]? ≠ some j
+  · rw [if_pos hc]
+    have : (ch.mapIdx (fun i c => stepChild dist pivots a j x i c)).map (fun c => c.data) =
+        (ch.map (fun c => c.data)).mapIdx (fun i l => if i = a then l ++ [x] else l) := by
+      apply List.ext_getElem?
+      intro n
+      simp only [List.getElem?_map, List.getElem?_mapIdx]
+      cases ch[n]? with
+      | none => rfl
+      | some c =>
+        simp only [Option.map_some, stepChild]
+        by_cases hn : n = a
+        · rw [if_pos ⟨hn, hc⟩, if_pos hn]; simp
+        · rw [if_neg (fun h => hn h.1), if_neg hn]; simp
+    rw [this]
+    exact push_perm x _ a (by simpa using ha)
+  · rw [if_neg hc]
+    have : (ch.mapIdx (fun i c => stepChild dist pivots a j x i c)).map (fun c => c.data) =
+        ch.map (fun c => c.data) := by
+      apply List.ext_getElem?
+      intro n
+      simp only [List.getElem?_map, List.getElem?_mapIdx]
+      cases ch[n]? with
+      | none => rfl
+      | some c => simp [stepChild, hc]
+    rw [this]
+    simp
+
+theorem dataL_distribute (dist : α → α → D) (pivots : List Nat) (ps : List (Elem α)) (hps : ps ≠ []) :
+    ∀ (data : List (Elem α)) (J : Nat) (ch : List (Node α D)), ch.map (fun c => c.pivot) = ps →
+      (dataL (distribute dist pivots data J ch)).Perm (dataL ch ++ nonSelf dist ps pivots data J)
+  | [], J, ch, _ => by simp [distribute, nonSelf]
+  | x :: xs, J, ch, hch => by
+    unfold distribute nonSelf
+    rw [distribute1_eq]
+    have hA : argminFirst (ch.map (fun c => dist x.val c.pivot.val)) = Asg dist ps x := by
+      unfold Asg
+      rw [← hch, List.map_map]
+      rfl
+    rw [hA]
+    have ha : Asg dist ps x < ch.length := by
+      have := argminFirst_lt (ps.map (fun p => dist x.val p.val)) (by simpa using hps)
+      have hl : ch.length = ps.length := by rw [← hch]; simp
+      unfold Asg
+      simpa [hl] using this
+    have hps' : (ch.mapIdx (fun i c => stepChild dist pivots (Asg dist ps x) J x i c)).map (fun c => c.pivot) = ps := by
+      rw [← hch]
+      apply List.ext_getElem?
+      intro n
+      simp only [List.getElem?_map, List.getElem?_mapIdx]
+      cases ch[n]? <;> simp
+    have ih := dataL_distribute dist pivots ps hps xs (J + 1) _ hps'
+    refine ih.trans ?_
+    rw [← List.append_assoc]
+    exact List.Perm.append_right _ (dataL_step dist pivots _ J x ch ha)
+
+theorem selfL_eq_zipIdx (dist : α → α → D) (ps : List (Elem α)) (pivots : List Nat) :
+    ∀ (data : List (Elem α)) (J : Nat),
+      selfL dist ps pivots data J =
+        ((data.zipIdx J).filter (fun p => decide (pivots[Asg dist ps p.1]? = some p.2))).map Prod.fst
+  | [], _ => rfl
+  | x :: xs, J => by
+    rw [List.zipIdx_cons, selfL, selfL_eq_zipIdx dist ps pivots xs (J + 1), List.filter_cons]
+    by_cases h : pivots[Asg dist ps x]? = some J <;> simp [h]
+
+/-- the copies `split` does not push are exactly the pivots, each once. -/
+theorem selfL_perm_pivElems {dist : α → α → D} {eps : D} (hd : DistOK dist eps) (data : List (Elem α))
+    (pivots : List Nat) (hr : ∀ c ∈ pivots, c < data.length) (hpw : pivots.Pairwise (FarApart dist eps data)) :
+    (selfL dist (pivElems data pivots) pivots data 0).Perm (pivElems data pivots) := by
+  rw [selfL_eq_zipIdx]
+  have hpe : pivElems data pivots =
+      (pivots.filterMap (fun pi => (data[pi]?).map (fun x => (x, pi)))).map Prod.fst := by
+    unfold pivElems
+    rw [List.map_filterMap]
+    congr 1
+    funext pi
+    cases data[pi]? <;> rfl
+  conv => rhs; rw [hpe]
+  apply List.Perm.map
+  have hsnd : (pivots.filterMap (fun pi => (data[pi]?).map (fun x => (x, pi)))).map Prod.snd = pivots := by
+    clear hpw hpe
+    induction pivots with
+    | nil => rfl
+    | cons a l ih =>
+      rw [List.filterMap_cons_some (b := (data[a]'(hr a (by simp)), a))
+        (by rw [List.getElem?_eq_getElem (hr a (by simp))]; rfl)]
+      simp [ih (fun c hc => hr c (List.mem_cons_of_mem _ hc))]
+  rw [List.perm_ext_iff_of_nodup]
+  · intro p
+    obtain ⟨x, j⟩ := p
+    simp only [List.mem_filter, List.mem_zipIdx_iff_getElem?, decide_eq_true_eq, List.mem_filterMap,
+      Option.map_eq_some_iff, Prod.mk.injEq]
+    constructor
+    · rintro ⟨hx, hp⟩
+      exact ⟨j, List.mem_of_getElem? hp, x, hx, rfl, rfl⟩
+    · rintro ⟨pi, hpi, y, hy, rfl, rfl⟩
+      refine ⟨hy, ?_⟩
+      obtain ⟨i, hi⟩ := List.mem_iff_getElem?.mp hpi
+      rw [asg_pivot hd data pivots hr hpw i pi y hi hy]
+      exact hi
+  · apply List.Nodup.filter
+    apply List.Nodup.of_map Prod.snd
+    rw [List.zipIdx_map_snd]
+    exact List.nodup_range' 1
+  · apply List.Nodup.of_map Prod.snd
+    rw [hsnd]
+    exact pivots_nodup hd data pivots hr hpw
+
+end SplitPerm
+
+
+/-! ### `splitNode` establishes the invariant -/
+
+section Assemble
+variable [LinearOrder D] [OfNat D 0]
+
+/-- the parameters for which `split` is defined at all: with `minDegree_ = 0` a child can get
+`degree_ = 0`, and splitting it calls `kcenters` with `k = 0` (a write into a 0-column matrix). -/
+structure ParamsOK (P : Params) : Prop where
+  minDeg : 1 ≤ P.minDegree
+  maxDeg : 1 ≤ P.maxDegree
+
+theorem mapSt_spec (f : Node α D → List U → Node α D × List U × Bool) :
+    ∀ (L : List (Node α D)) (us : List U),
+      (mapSt f L us).1.length = L.length ∧
+      ∀ (m : Nat) (c : Node α D), L[m]? = some c → ∃ us', (mapSt f L us).1[m]? = some (f c us').1
+  | [], us => by simp [mapSt]
+  | c :: L, us => by
+    unfold mapSt
+    obtain ⟨ih1, ih2⟩ := mapSt_spec f L (f c us).2.1
+    refine ⟨by simp [ih1], ?_⟩
+    intro m c0 hm
+    cases m with
+    | zero =>
+      simp only [List.getElem?_cons_zero, Option.some.injEq] at hm
+      subst hm
+      exact ⟨us, by simp⟩
+    | succ m =>
+      simp only [List.getElem?_cons_succ] at hm
+      obtain ⟨us', h⟩ := ih2 m c0 hm
+      exact ⟨us', by simpa using h⟩
+
+@[simp] theorem finalizeChild_pivot (P : Params) (d n : Nat) (c : Node α D) : (finalizeChild P d n c).pivot = c.pivot := by
+  cases c; rfl
+@[simp] theorem finalizeChild_ranges (P : Params) (d n : Nat) (c : Node α D) : (finalizeChild P d n c).ranges = c.ranges := by
+  cases c; rfl
+@[simp] theorem finalizeChild_data (P : Params) (d n : Nat) (c : Node α D) : (finalizeChild P d n c).data = c.data := by
+  cases c; rfl
+@[simp] theorem finalizeChild_children (P : Params) (d n : Nat) (c : Node α D) :
+    (finalizeChild P d n c).children = c.children := by
+  cases c; rfl
+theorem finalizeChild_rad (P : Params) (d n : Nat) (c : Node α D) (v : D) (h : c.rad.has v = true) :
+    (finalizeChild P d n c).rad.has v = true := by
+  obtain ⟨p, deg, rad, rgs, data, ch⟩ := c
+  cases rad with
+  | none => simp [Node.rad, Range.has] at h
+  | some r => exact h
+theorem finalizeChild_degree (P : Params) (hP : ParamsOK P) (d n : Nat) (c : Node α D) :
+    0 < (finalizeChild P d n c).degree := by
+  obtain ⟨p, deg, rad, rgs, data, ch⟩ := c
+  simp only [finalizeChild, Node.degree]
+  have := hP.minDeg
+  have := hP.maxDeg
+  omega
+
+theorem leaf_inv (dist : α → α → D) (n : Node α D) (h : n.children = []) : n.inv dist [] = true := by
+  obtain ⟨p, deg, rad, rgs, data, ch⟩ := n
+  simp only [Node.children] at h
+  subst h
+  simp [Node.inv, isRemoved, localInv, invL]
+
+theorem leaf_degPos (n : Node α D) (h : n.children = []) (hd : 0 < n.degree) : n.degPos = true := by
+  obtain ⟨p, deg, rad, rgs, data, ch⟩ := n
+  simp only [Node.children] at h
+  subst h
+  rw [Node.degPos_mk]
+  exact ⟨hd, by simp⟩
+
+theorem restOf_leaf (n : Node α D) (h : n.children = []) : restOf n = n.data := by
+  simp [restOf, h, elemsL]
+
+theorem elemsL_leaves : ∀ (L : List (Node α D)), (∀ c ∈ L, c.children = []) →
+    (elemsL L).Perm (L.map (fun c => c.pivot) ++ dataL L)
+  | [], _ => by simp [elemsL, dataL]
+  | c :: L, h => by
+    have ih := elemsL_leaves L (fun c' hc' => h c' (List.mem_cons_of_mem _ hc'))
+    simp only [elemsL, List.map_cons, dataL, List.flatten_cons, List.cons_append]
+    rw [Node.elems_eq, restOf_leaf c (h c (by simp))]
+    simp only [List.cons_append]
+    refine List.Perm.cons _ ?_
+    refine (List.Perm.append_left c.data ih).trans ?_
+    unfold dataL
+    rw [← List.append_assoc, ← List.append_assoc]
+    exact List.Perm.append_right _ List.perm_append_comm
+
+theorem dataL_new (deg : Nat) (ps : List (Elem α)) : dataL (ps.map (Node.new (D := D) deg)) = [] := by
+  induction ps with
+  | nil => rfl
+  | cons p ps ih =>
+    simp only [dataL, List.map_cons, List.flatten_cons] at ih ⊢
+    rw [ih]
+    rfl
+
+/-- **`split` establishes `GnatInv`** — for every draw, every leaf with at least one element and
+`degree_ >= 1`: the result satisfies the invariant, keeps pivot / radii / ranges of the split node,
+stores exactly the same copies, and all degrees below are positive. -/
+theorem splitNode_spec (ctx : Ctx α D U) (hd : DistOK ctx.dist ctx.eps) (hP : ParamsOK ctx.P)
+    (hpick : ∀ u n, 0 < n → ctx.pick u n < n) :
+    ∀ (fuel : Nat) (n : Node α D) (us : List U), n.children = [] → n.data ≠ [] → 0 < n.degree →
+      (splitNode ctx fuel n us).1.inv ctx.dist [] = true ∧ (splitNode ctx fuel n us).1.pivot = n.pivot ∧
+      (splitNode ctx fuel n us).1.rad = n.rad ∧ (splitNode ctx fuel n us).1.ranges = n.ranges ∧
+      (restOf (splitNode ctx fuel n us).1).Perm (restOf n) ∧ (splitNode ctx fuel n us).1.degPos = true := by
+  intro fuel
+  induction fuel with
+  | zero =>
+    intro n us hch _ hdeg
+    unfold splitNode
+    exact ⟨leaf_inv _ n hch, rfl, rfl, rfl, List.Perm.refl _, leaf_degPos n hch hdeg⟩
+  | succ fuel ih =>
+    intro n us hch hdata hdeg
+    obtain ⟨p, deg, rad, rgs, data, ch⟩ := n
+    simp only [Node.children] at hch
+    subst hch
+    simp only [Node.data] at hdata
+    simp only [Node.degree] at hdeg
+    cases us with
+    | nil =>
+      unfold splitNode
+      exact ⟨leaf_inv _ _ rfl, rfl, rfl, rfl, List.Perm.refl _, leaf_degPos _ rfl hdeg⟩
+    | cons u us =>
+      unfold splitNode
+      simp only []
+      have hfirst : ctx.pick u data.length < data.length := hpick u _ (List.length_pos_iff.mpr hdata)
+      obtain ⟨k1, k2, k3, k4⟩ := kcenters_spec ctx.dist ctx.eps data deg (ctx.pick u data.length) hfirst
+      generalize kcenters ctx.dist ctx.eps data deg (ctx.pick u data.length) = pivots at k1 k2 k3 k4 ⊢
+      have hch0 : pivots.filterMap (fun pi => (data[pi]?).map (Node.new (D := D) deg)) =
+          (pivElems data pivots).map (Node.new deg) := by
+        unfold pivElems
+        rw [List.map_filterMap]
+      rw [hch0]
+      generalize hps : pivElems data pivots = ps
+      have hpslen : ps.length = pivots.length := by rw [← hps]; exact pivElems_length data pivots k1
+      have hpsne : ps ≠ [] := by
+        intro h
+        rw [h] at hpslen
+        simp only [List.length_nil] at hpslen
+        omega
+      have hps0 : (ps.map (Node.new (D := D) deg)).map (fun c => c.pivot) = ps := by
+        rw [List.map_map]
+        conv => rhs; rw [← List.map_id ps]
+        rfl
+      obtain ⟨d1, d2⟩ := distribute_spec ctx.dist pivots ps data 0 _ hps0
+      have hperm := dataL_distribute ctx.dist pivots ps hpsne data 0 _ hps0
+      rw [dataL_new, List.nil_append] at hperm
+      generalize distribute ctx.dist pivots data 0 (ps.map (Node.new deg)) = ch1 at d1 d2 hperm ⊢
+      simp only [List.length_map] at d1
+      -- every child after the distribution loop
+      have hc1 : ∀ (i : Nat) (c1 : Node α D), ch1[i]? = some c1 →
+          ∃ P, ps[i]? = some P ∧ c1 = childFold ctx.dist pivots ps i (Node.new deg P) data 0 := by
+        intro i c1 hi
+        have hilt : i < ps.length := by
+          rw [← d1]
+          exact (List.getElem?_eq_some_iff.mp hi).1
+        have := d2 i (Node.new deg ps[i]) (by simp [List.getElem?_eq_getElem hilt])
+        rw [this] at hi
+        exact ⟨ps[i], List.getElem?_eq_getElem hilt, (Option.some.inj hi).symm⟩
+      have hpiv1 : ch1.map (fun c => c.pivot) = ps := by
+        apply List.ext_getElem?
+        intro i
+        rw [List.getElem?_map]
+        cases hi : ch1[i]? with
+        | none =>
+          have : ps.length ≤ i := by rw [← d1]; exact List.getElem?_eq_none_iff.mp hi
+          simp [List.getElem?_eq_none this]
+        | some c1 =>
+          obtain ⟨P, hP1, rfl⟩ := hc1 i c1 hi
+          simp only [Option.map_some]
+          rw [(childFold_spec ctx.dist pivots ps i data 0 (Node.new deg P)).1, hP1]
+          rfl
+      have hleaf1 : ∀ c1 ∈ ch1, c1.children = [] := by
+        intro c1 hc
+        obtain ⟨i, hi⟩ := List.mem_iff_getElem?.mp hc
+        obtain ⟨P, _, rfl⟩ := hc1 i c1 hi
+        rw [(childFold_spec ctx.dist pivots ps i data 0 (Node.new deg P)).2.1]
+        rfl
+      -- the final children
+      obtain ⟨m1, m2⟩ := mapSt_spec (fun (c : Node α D) (us : List U) =>
+          if needToSplit ctx.P c.degree c.data.length = true then splitNode ctx fuel c us else (c, us, true))
+        (ch1.map (finalizeChild ctx.P pivots.length data.length)) us
+      generalize (mapSt (fun (c : Node α D) (us : List U) =>
+          if needToSplit ctx.P c.degree c.data.length = true then splitNode ctx fuel c us else (c, us, true))
+        (ch1.map (finalizeChild ctx.P pivots.length data.length)) us).1 = ch3 at m1 m2 ⊢
+      simp only [List.length_map] at m1
+      have hc3 : ∀ (i : Nat) (c3 : Node α D), ch3[i]? = some c3 →
+          ∃ c1, ch1[i]? = some c1 ∧ c3.inv ctx.dist [] = true ∧ c3.pivot = c1.pivot ∧
+            (∀ v, c1.rad.has v = true → c3.rad.has v = true) ∧ c3.ranges = c1.ranges ∧
+            (restOf c3).Perm c1.data ∧ c3.degPos = true := by
+        intro i c3 hi
+        have hilt : i < ch1.length := by
+          rw [← m1]
+          exact (List.getElem?_eq_some_iff.mp hi).1
+        obtain ⟨us', h⟩ := m2 i (finalizeChild ctx.P pivots.length data.length ch1[i])
+          (by simp [List.getElem?_eq_getElem hilt])
+        rw [h] at hi
+        have hc3eq := (Option.some.inj hi).symm
+        refine ⟨ch1[i], List.getElem?_eq_getElem hilt, ?_⟩
+        have hl1 := hleaf1 ch1[i] (List.getElem_mem hilt)
+        generalize ch1[i] = c1 at hl1 hc3eq
+        generalize hc2 : finalizeChild ctx.P pivots.length data.length c1 = c2 at hc3eq
+        have hl2 : c2.children = [] := by rw [← hc2]; simpa using hl1
+        have hdeg2 : 0 < c2.degree := by rw [← hc2]; exact finalizeChild_degree _ hP _ _ _
+        have hp2 : c2.pivot = c1.pivot := by rw [← hc2]; simp
+        have hr2 : ∀ v, c1.rad.has v = true → c2.rad.has v = true := by
+          intro v hv; rw [← hc2]; exact finalizeChild_rad _ _ _ _ v hv
+        have hrg2 : c2.ranges = c1.ranges := by rw [← hc2]; simp
+        have hd2 : c2.data = c1.data := by rw [← hc2]; simp
+        by_cases hns : needToSplit ctx.P c2.degree c2.data.length = true
+        · rw [if_pos hns] at hc3eq
+          have hne : c2.data ≠ [] := by
+            intro h0
+            simp [needToSplit, h0] at hns
+          obtain ⟨s1, s2, s3, s4, s5, s6⟩ := ih c2 us' hl2 hne hdeg2
+          rw [← hc3eq] at s1 s2 s3 s4 s5 s6
+          refine ⟨s1, by rw [s2, hp2], ?_, by rw [s4, hrg2], ?_, s6⟩
+          · intro v hv; rw [s3]; exact hr2 v hv
+          · rw [restOf_leaf c2 hl2, hd2] at s5; exact s5
+        · rw [if_neg hns] at hc3eq
+          simp only [] at hc3eq
+          rw [hc3eq]
+          exact ⟨leaf_inv _ c2 hl2, hp2, hr2, hrg2, by rw [restOf_leaf c2 hl2, hd2], leaf_degPos c2 hl2 hdeg2⟩
+      -- the child at index i, fully described
+      have hfull : ∀ (i : Nat) (c3 : Node α D), ch3[i]? = some c3 →
+          ∃ P pi, ps[i]? = some P ∧ pivots[i]? = some pi ∧ data[pi]? = some P ∧ c3.pivot = P ∧
+            (∀ y ∈ restOf c3, c3.rad.has (ctx.dist y.val P.val) = true) ∧
+            (∀ y ∈ restOf c3, ∃ m : Nat, data[m]? = some y ∧ Asg ctx.dist ps y = i) ∧
+            (∀ k : Nat, k < pivots.length → ∃ rg, c3.ranges[k]? = some rg ∧
+              ∀ (m : Nat) (y : Elem α), data[m]? = some y → Asg ctx.dist ps y = k →
+                rg.has (ctx.dist y.val P.val) = true) := by
+        intro i c3 hi
+        obtain ⟨c1, h1, _, h3, h4, h5, h6, _⟩ := hc3 i c3 hi
+        obtain ⟨P, hP1, rfl⟩ := hc1 i c1 h1
+        obtain ⟨f1, _, _, _, f5, f6, f7⟩ := childFold_spec ctx.dist pivots ps i data 0 (Node.new deg P)
+        have hPpiv : (Node.new (D := D) deg P).pivot = P := rfl
+        have hilt : i < pivots.length := by
+          rw [← hpslen]; exact (List.getElem?_eq_some_iff.mp hP1).1
+        have hpe := pivElems_getElem? data pivots k1 i
+        rw [hps, hP1, List.getElem?_eq_getElem hilt] at hpe
+        simp only [Option.bind_some] at hpe
+        refine ⟨P, pivots[i], hP1, List.getElem?_eq_getElem hilt, hpe.symm, by rw [h3, f1, hPpiv], ?_, ?_, ?_⟩
+        · intro y hy
+          apply h4
+          have := f6 (by intro z hz; simp [Node.new, Node.data] at hz) y (h6.subset hy)
+          rwa [hPpiv] at this
+        · intro y hy
+          rcases f5 y (h6.subset hy) with h | h
+          · simp [Node.new, Node.data] at h
+          · exact h
+        · intro k hk
+          have hk0 : (Node.new (D := D) deg P).ranges[k]? = some none := by
+            simp only [Node.new, Node.ranges]
+            rw [List.getElem?_replicate]
+            simp only [ite_eq_left_iff, not_lt, reduceCtorEq, imp_false, not_le]
+            omega
+          obtain ⟨rg, hrg, _, hcov⟩ := f7 k none hk0
+          refine ⟨rg, by rw [h5]; exact hrg, ?_⟩
+          intro m y hm ha
+          have := hcov m y hm ha
+          rwa [hPpiv] at this
+      have hlen3 : ch3.length = pivots.length := by rw [m1, d1, hpslen]
+      refine ⟨?_, rfl, rfl, rfl, ?_, ?_⟩
+      · rw [Node.inv_mk]
+        refine ⟨by simp [isRemoved], ?_, ?_⟩
+        · rw [localInv_iff]
+          intro ci hci
+          obtain ⟨i, hi⟩ := List.mem_iff_getElem?.mp hci
+          obtain ⟨P, pi, _, _, _, hpv, hradc, _, hrgc⟩ := hfull i ci hi
+          rw [hpv]
+          refine ⟨hradc, ?_⟩
+          intro j cj hj
+          have hjlt : j < pivots.length := by
+            rw [← hlen3]; exact (List.getElem?_eq_some_iff.mp hj).1
+          obtain ⟨rg, hrg, hcov⟩ := hrgc j hjlt
+          refine ⟨rg, hrg, ?_⟩
+          intro y hy
+          obtain ⟨Pj, pj, _, hpj2, hpj3, hpvj, _, hdataj, _⟩ := hfull j cj hj
+          rw [Node.elems_eq, hpvj] at hy
+          rcases List.mem_cons.mp hy with h | h
+          · rw [h]
+            refine hcov pj Pj hpj3 ?_
+            rw [← hps]
+            exact asg_pivot hd data pivots k1 k2 j pj Pj hpj2 hpj3
+          · obtain ⟨m, hm, ha⟩ := hdataj y h
+            exact hcov m y hm ha
+        · apply invL_of_mem
+          intro c3 hc
+          obtain ⟨i, hi⟩ := List.mem_iff_getElem?.mp hc
+          obtain ⟨_, _, h2, _⟩ := hc3 i c3 hi
+          exact h2
+      · simp only [restOf, Node.data, Node.children, List.nil_append, elemsL, List.append_nil]
+        have e1 : (elemsL ch3).Perm (elemsL ch1) := by
+          apply elemsL_perm_pointwise ch1 ch3 (by rw [m1])
+          intro m c1 c3 hc1m hc3m
+          obtain ⟨c1', h1, _, h3, _, _, h6, _⟩ := hc3 m c3 hc3m
+          rw [hc1m] at h1
+          cases h1
+          rw [Node.elems_eq, Node.elems_eq c1, h3,
+            restOf_leaf c1 (hleaf1 c1 (List.mem_of_getElem? hc1m))]
+          exact List.Perm.cons _ h6
+        refine e1.trans ((elemsL_leaves ch1 hleaf1).trans ?_)
+        rw [hpiv1]
+        refine (List.Perm.append_left ps hperm).trans ?_
+        have e2 := selfL_perm_pivElems hd data pivots k1 k2
+        rw [hps] at e2
+        exact (List.Perm.append_right _ e2.symm).trans (self_nonSelf_perm ctx.dist ps pivots data 0).symm
+      · rw [Node.degPos_mk]
+        refine ⟨by omega, ?_⟩
+        intro c3 hc
+        obtain ⟨i, hi⟩ := List.mem_iff_getElem?.mp hc
+        obtain ⟨_, _, _, _, _, _, _, h8⟩ := hc3 i c3 hi
+        exact h8
+
+end Assemble
+
+/-- `SplitSpec` holds whenever nothing is marked removed (the only situation in which `split` runs). -/
+theorem splitSpec_nil [LinearOrder D] [OfNat D 0] (ctx : Ctx α D U) (hd : DistOK ctx.dist ctx.eps)
+    (hP : ParamsOK ctx.P) (hpick : ∀ u n, 0 < n → ctx.pick u n < n) : SplitSpec ctx [] := by
+  intro fuel n us hch hdata hdeg _
+  obtain ⟨h1, h2, _, _, h5, h6⟩ := splitNode_spec ctx hd hP hpick fuel n us hch hdata hdeg
+  exact ⟨h1, h2, h5, h6⟩
+
 end OmplModel.NN
